@@ -481,7 +481,11 @@ class Run:
     def shrink(self, case, pred_fails):
         """Greedy batch delta debugging: one shard per round."""
         cur = case
+        t_end = time.time() + SHRINK_BUDGET_S
         for _ in range(25):
+            if time.time() > t_end:      # a smaller replay is a convenience; the verdict does not wait for it
+                self.notes.append("shrink stopped after %ds budget" % SHRINK_BUDGET_S)
+                break
             cands = []
             seen = set()
             for c in self.prop.shrink_candidates(cur):
@@ -507,6 +511,9 @@ class Run:
                 break
             cur = nxt
         return cur
+
+
+SHRINK_BUDGET_S = int(os.environ.get("VERIF_SHRINK_BUDGET_S", "150"))
 
 
 def run_check(prop: Prop, tier: str, seed: int) -> int:
